@@ -182,6 +182,34 @@ def extract(repo):
     return c
 
 
+def gf_tables(prim, generator):
+    """exp/log tables of GF(2^8) for the given primitive polynomial and generator, computed here by
+    carry-less multiplication (the translator's own arithmetic, nothing imported from the tools);
+    packed little-endian, one byte per entry, into two Nat literals"""
+    def clmulmod(a, b):
+        r = 0
+        while b:
+            if b & 1:
+                r ^= a
+            b >>= 1
+            a <<= 1
+            if a & 0x100:
+                a ^= prim
+        return r
+    exp = [0] * 255
+    log = [0] * 256
+    x = 1
+    for i in range(255):
+        exp[i] = x
+        log[x] = i
+        x = clmulmod(x, generator)
+    if x != 1 or len(set(exp)) != 255:
+        raise ValueError("generator %d is not primitive modulo %#x" % (generator, prim))
+    E = sum(v << (8 * i) for i, v in enumerate(exp))
+    L = sum(v << (8 * i) for i, v in enumerate(log))
+    return E, L
+
+
 def render(c):
     L = []
     L.append("/- GENERATED by harness/translate.py from /repo sources on every run. Do not edit. -/")
@@ -196,6 +224,14 @@ def render(c):
     L.append("/-- (ecc_algo, generator, primitive polynomial, first consecutive root) -/")
     L.append("def codecs : List (Nat × Nat × Nat × Nat) := [%s]"
              % ", ".join("(%d, %d, %d, %d)" % t for t in c["codecs"]))
+    fields = sorted(set((prim, gen) for _a, gen, prim, _f in c["codecs"]))
+    for prim, gen in fields:
+        E, Lg = gf_tables(prim, gen)
+        L.append("/-- packed exp / log tables of GF(2^8), primitive polynomial %#x, generator %d -/" % (prim, gen))
+        L.append("def expTab_%x_%d : Nat := %d" % (prim, gen, E))
+        L.append("def logTab_%x_%d : Nat := %d" % (prim, gen, Lg))
+    L.append("/-- (primitive polynomial, generator) of the fields in use -/")
+    L.append("def fields : List (Nat × Nat) := [%s]" % ", ".join("(%d, %d)" % f for f in fields))
     L.append("end Pff.Consts")
     return "\n".join(L) + "\n"
 
